@@ -177,10 +177,13 @@ def check_partition(ctx):
         if not nloops:
             ctx.undecided(rule, fi, 'generate_code', 'no loop over the runs of the field list found', fi.node.lineno, clause='c')
     # loop blocks: zip(range(group[0][0], group[-1][0] + 1), [g[1] for g in group])
-    for mname in ('generate_code_for_loop_pack', 'generate_code_for_loop_unpack'):
-        fi = cg.methods.get(mname)
-        if fi is None:
-            ctx.undecided(rule, (cg.file, 'CodeGenerator.' + mname), mname, 'anchor not found')
+    gens = D.loop_generators(repo)
+    if not gens:
+        ctx.undecided(rule, (cg.file, 'CodeGenerator'), 'per-field loop block generators', 'anchor not found')
+    for fi, kinds_ in gens:
+        mname = fi.node.name
+        if len(fi.node.args.args) < 2:
+            ctx.undecided(rule, fi, mname, 'the generator does not take the run as its argument', fi.node.lineno, clause='c')
             continue
         gname = fi.node.args.args[1].arg
         zips = [x for x in ast.walk(fi.node) if isinstance(x, ast.Call) and call_name(x) == 'zip']
@@ -198,6 +201,8 @@ def check_partition(ctx):
                     ctx.violation(rule, fi, st, 'the indices emitted do not cover exactly the positions of the run (expected range(group[0][0], group[-1][0] + 1) zipped with the run\'s names)', z.lineno, clause='c')
                 enum_ok = True
         alt = [x for x in ast.walk(fi.node) if isinstance(x, (ast.ListComp, ast.GeneratorExp)) and canon(x.generators[0].iter, {gname: 'G'}) == 'G' and not x.generators[0].ifs]
+        alt += [x for x in ast.walk(fi.node) if isinstance(x, ast.For) and canon(x.iter, {gname: 'G'}) == 'G'
+                and not any(isinstance(y, (ast.Continue, ast.Break, ast.If)) for b_ in x.body for y in ast.walk(b_))]
         if not enum_ok:
             if alt:
                 ctx.holds(rule, fi, '%s: one block per element of the run' % mname, 'iterates the run itself', fi.node.lineno, clause='c')
@@ -208,6 +213,8 @@ def check_partition(ctx):
     for mname, fi in sorted(cg.methods.items()):
         if not mname.startswith('generate_code_for_') or mname in ('generate_code_for_fixed_fields', 'generate_code_for_loop_pack', 'generate_code_for_loop_unpack'):
             continue
+        if any(f_.id == fi.id and len(k_) == 1 for f_, k_ in gens):
+            continue            # a per-field generator of one kind returns that kind's text, not a pair
         rets = [r for r in ast.walk(fi.node) if isinstance(r, ast.Return) and r.value is not None]
         for r in rets:
             v = r.value
@@ -499,8 +506,18 @@ def check_struct_block(ctx):
             keyed = find_groupby_key(ff.node, src)
             if keyed is not None and keyed.endswith('.is_bigendian'):
                 ctx.holds(rule, ff, st, 'run keyed on is_bigendian, packed with that key', c.lineno, clause='d')
+            elif keyed is None:
+                # the (key, run) pairs come from a helper: every return of it must be runs keyed on
+                # the endianness or singletons with their own endianness
+                v, why = helper_runs_verdict(repo, cg, src)
+                if v is True:
+                    ctx.holds(rule, ff, st, 'runs from %s' % why, c.lineno, clause='d')
+                elif v is False:
+                    ctx.violation(rule, ff, st, 'the runs handed to the struct block come from %s: fields of different endianness share one format prefix' % why, c.lineno, clause='d', witness=True)
+                else:
+                    ctx.undecided(rule, ff, st, 'cannot see what the runs handed to the struct block are keyed on (%s)' % why, c.lineno, clause='d')
             else:
-                ctx.violation(rule, ff, st, 'the run handed to the struct block is not a groupby run keyed on is_bigendian (key: %s): fields of different endianness share one format prefix' % keyed, c.lineno, clause='d')
+                ctx.violation(rule, ff, st, 'the run handed to the struct block is not a groupby run keyed on is_bigendian (key: %s): fields of different endianness share one format prefix' % keyed, c.lineno, clause='d', witness=True)
             continue
         # case 1': singleton [entry] with entry.<field>.is_bigendian, entry the comprehension's element
         if isinstance(grp, ast.List) and len(grp.elts) == 1 and isinstance(grp.elts[0], ast.Name) and isinstance(gen.target, ast.Name) \
@@ -588,6 +605,58 @@ def find_groupby_key(func, src):
                     if isinstance(lam, ast.Lambda) and lam.args.args:
                         return canon(lam.body, {lam.args.args[0].arg: 'T'})
     return None
+
+
+def helper_runs_verdict(repo, cg, src):
+    """src = self.<helper>(group): every return of the helper is a list of (endianness, run) pairs;
+    -> (True, text) when each return is visibly runs of a groupby keyed on is_bigendian or singletons
+    paired with their own is_bigendian; (False, text) when one is a groupby keyed on something else;
+    (None, why) otherwise"""
+    if not (isinstance(src, ast.Call) and isinstance(src.func, ast.Attribute) and isinstance(src.func.value, ast.Name)
+            and src.func.value.id == 'self' and src.func.attr in cg.methods):
+        return None, 'not a call of a method of the generator'
+    h = cg.methods[src.func.attr]
+    rets = [n for n in ast.walk(h.node) if isinstance(n, ast.Return)]
+    if not rets:
+        return None, '%s has no return' % h.node.name
+    seen = []
+    for r in rets:
+        v = r.value
+        if not isinstance(v, (ast.ListComp, ast.GeneratorExp)) or len(v.generators) != 1 or v.generators[0].ifs:
+            return None, 'a return of %s is not one comprehension' % h.node.name
+        g = v.generators[0]
+        elt = v.elt
+        if not (isinstance(elt, ast.Tuple) and len(elt.elts) == 2):
+            return None, 'a return of %s does not build (endianness, run) pairs' % h.node.name
+        be, run = elt.elts
+        it = g.iter
+        if isinstance(it, ast.Call) and call_name(it) in ('itertools.groupby', 'groupby') and len(it.args) == 2:
+            lam = it.args[1]
+            if isinstance(lam, ast.Name):
+                defs = [a.value for a in ast.walk(h.node) if isinstance(a, ast.Assign) and len(a.targets) == 1 and isinstance(a.targets[0], ast.Name) and a.targets[0].id == lam.id]
+                lam = defs[0] if len(defs) == 1 else None
+            if not (isinstance(lam, ast.Lambda) and lam.args.args):
+                return None, 'groupby key of %s is not a lambda' % h.node.name
+            keyed = canon(lam.body, {lam.args.args[0].arg: 'T'})
+            names = [canon(x) for x in g.target.elts] if isinstance(g.target, ast.Tuple) else []
+            runname = run.args[0] if isinstance(run, ast.Call) and call_name(run) in ('list', 'tuple') and len(run.args) == 1 else run
+            if len(names) != 2 or canon(be) != names[0] or canon(runname) != names[1]:
+                return None, 'pairs of %s are not (key, run) of the groupby' % h.node.name
+            if not keyed.endswith('.is_bigendian'):
+                return False, '%s, a groupby keyed on %s' % (h.node.name, keyed)
+            seen.append('groupby keyed on is_bigendian')
+            continue
+        # singletons: (f.is_bigendian, [member]) for member in group
+        if isinstance(run, ast.List) and len(run.elts) == 1 and isinstance(be, ast.Attribute) and be.attr == 'is_bigendian' \
+                and canon(run.elts[0]) == canon(g.target):
+            own = member_component(repo, be.value, g.target, 2)
+            if own:
+                seen.append('singletons with their own endianness')
+                continue
+            if own is False:
+                return False, '%s, singletons paired with an endianness that is not their own' % h.node.name
+        return None, 'a return of %s is in a form the rule does not read' % h.node.name
+    return True, '%s: %s' % (h.node.name, ' / '.join(seen))
 
 
 # ---------------------------------------------------------------- (e) options
